@@ -13,7 +13,7 @@ LEVEL = "exploration"
 SHARDS = {"quick": 8, "thorough": 16}
 RULE = ("cases: (a) enc: msmart _Packet.encode(id, frame) decoded by the independent V2 decoder; (b) dec: packets built by "
         "the independent encoder (varying message id, timestamp, magic, reserved bytes) decoded by _Packet.decode; (c) send: "
-        "LAN.send on a V2 connection against the model device, optionally through the public Device object, with the device stamping a different id on its replies, with further exchanges on the same object, with the first transmissions lost (retransmissions must decode too) and after another LAN object with a different id sent the same frame. Sweep of all frame lengths 0..255 x boundary ids, plus "
+        "LAN.send on a V2 connection against the model device, optionally through the public Device object, with the device stamping a different id on its replies, with further exchanges on the same object, with the first transmissions lost (retransmissions must decode too) and after another LAN object with a different id sent the same frame; (d) long: 70 000 (quick) / 300 000 (thorough) packets encoded consecutively in one process, each decoded by the independent decoder. Sweep of all frame lengths 0..255 x boundary ids, plus "
         "Hypothesis-generated frames/ids/clock values, with the process's monotonic clock up to years past import time. Non-trivial: len(frame)>=1 and (len%16 in {0,15} or id>=2^32 or "
         "frame contains 5A5A). Distinct by (kind, frame, id).")
 ASSUMPTIONS = ["AES block primitive, MD5 shared with the code under test (trusted base)",
@@ -60,6 +60,25 @@ def check_case(case: dict):
             return ("enc/id-differs", f"decoded id {p.device_id:#x} != {dev_id:#x}")
         if p.msg_type != b"\x01\x11":
             return ("enc/msg-type", f"message type {p.msg_type.hex()}")
+        return None
+    if kind == "long":
+        # process history: n packets encoded one after the other in this process; every one must decode at the device
+        vloop.set_fixed_clock(case.get("ts", 0.0))
+        try:
+            for i in range(case["n"]):
+                fr = frame + bytes([i & 0xFF, (i >> 8) & 0xFF])
+                try:
+                    pkt = _Packet.encode(dev_id, fr)
+                except Exception as e:
+                    return (f"enc/raises/{type(e).__name__}", f"_Packet.encode raised {e!r} for packet number {i + 1} of this process run")
+                try:
+                    p = rc.v2_decode(pkt)
+                except rc.RefError as e:
+                    return (f"enc/ref-rejects/{str(e).split()[0]}", f"reference decoder rejects packet number {i + 1}: {e}; packet={pkt.hex()}")
+                if p.frame != fr or p.device_id != dev_id:
+                    return ("enc/frame-differs", f"packet number {i + 1}: decoded frame/id {p.frame.hex()}/{p.device_id:#x}")
+        finally:
+            vloop.CURRENT = None
         return None
     if kind == "dec":
         pkt = rc.v2_encode(dev_id, frame, timestamp=bytes.fromhex(case["tsb"]), message_id=bytes.fromhex(case["mid"]),
@@ -175,6 +194,13 @@ def run(ctx) -> None:
                         "magic": ["2000", "2080", "7a80", "0000"][(L + j) % 4], "res": bytes([(L + k) & 0xFF for k in range(12)]).hex()}
                 ctx.check(case, lambda c: _run_one(ctx, c))
     ctx.sweep("frame length 0..255 x ids x {enc,dec}", n * 2, True)
+
+    # one long run in a single process (anything counted per process or per class: 16- and 32-bit boundaries of a packet count)
+    if ctx.shard == 0:
+        case = {"kind": "long", "frame": "aa20ac00000000000003418100ff03ff00020000000000000000000000000301", "id": 0x0000A1B2C3D4E5F6 & 0xFFFFFFFFFFFF,
+                "n": 70000 if ctx.quick else 300000, "ts": 1.0e6}
+        ctx.check(case, lambda c: _run_one(ctx, c))
+        ctx.sweep("packets encoded consecutively in one process", case["n"], True)
 
     hexb = lambda s: s.map(lambda b: b.hex())
     enc_cases = st.fixed_dictionaries({
